@@ -141,19 +141,19 @@ def run_both(lines, mode, variant="f64"):
 RAT = re.compile(r"^-?\d+(/\d+)?$")
 
 
-def representable(tok):
-    """is this exact rational a double with room to spare?"""
+def representable(tok, bits):
+    """is this exact rational a float of the build's width, with room to spare?"""
     if "/" in tok:
         n, d = tok.split("/")
         d = int(d)
-        if d & (d - 1) or d > (1 << 40):
+        if d & (d - 1) or d > (1 << (bits - 10)):
             return False
-        return abs(int(n)) < (1 << 50)
-    return abs(int(tok)) < (1 << 50)
+        return abs(int(n)) < (1 << bits)
+    return abs(int(tok)) < (1 << bits)
 
 
-def line_representable(line):
-    return all(representable(t) for t in line.replace("=", " ").split() if RAT.match(t) and ("/" in t or len(t) > 12))
+def line_representable(line, bits=50):
+    return all(representable(t, bits) for t in line.replace("=", " ").split() if RAT.match(t) and ("/" in t or len(t) > 5))
 
 
 def hexval(tok):
@@ -198,7 +198,7 @@ def split_spec(line):
     return line, None
 
 
-def compare_case(cmds, impl, model, mode, tol):
+def compare_case(cmds, impl, model, mode, tol, bits=50):
     """returns list of findings for one case: (kind, cmd_index, impl_line, model_line, spec)"""
     out = []
     n = min(len(impl), len(model))
@@ -210,7 +210,7 @@ def compare_case(cmds, impl, model, mode, tol):
         if "!!IMMUT:" in il:
             out.append(("immut", i, il, ml, spec))
             il = il.split(" !!IMMUT:")[0]
-        if mode == "exact" and not (line_representable(ml) and (spec is None or line_representable(spec))):
+        if mode == "exact" and not (line_representable(ml, bits) and (spec is None or line_representable(spec, bits))):
             out.append(("inexact", i, il, ml, spec))
             break
         if mode != "exact" and (NONFINITE.search(ml) or (spec is not None and NONFINITE.search(spec))):
@@ -245,7 +245,7 @@ def run_cases(cases, mode, variant, tol):
         if len(cases) == 1:
             c = cases[0]
             i1, m1 = impl[1:], model[1:]
-            f = compare_case(c.lines, i1, m1, mode, tol)
+            f = compare_case(c.lines, i1, m1, mode, tol, 21 if variant == "f32" else 50)
             if rci != 0 or rcm != 0:
                 f.append(("crash", max(0, min(len(i1), len(m1)) - 1), "harness rc=%d %s" % (rci, ei), "model rc=%d %s" % (rcm, em), None))
             return [f]
@@ -254,7 +254,7 @@ def run_cases(cases, mode, variant, tol):
             out.extend(run_cases([c], mode, variant, tol))
         return out
     for c, (s, e) in zip(cases, spans):
-        results.append(compare_case(c.lines, impl[s:e], model[s:e], mode, tol))
+        results.append(compare_case(c.lines, impl[s:e], model[s:e], mode, tol, 21 if variant == "f32" else 50))
     return results
 
 
